@@ -163,6 +163,7 @@ func refParseAll(lines []string) ([]*refEntry, string) {
 }
 
 func checkC17(p *Prog, rp *Report) {
+	defer stateRule(p, rp, "C17-STATE", p.Func("changelog", "Parse"), p.Func("changelog", "ParseOne"))
 	rp.Explanation = "changelog.Parse (and through it ParseOne) is interpreted abstractly with the reader replaced by an oracle playing scripts of changelog lines (two header kinds incl. epoch, several distributions and options; malformed headers; blank lines; body lines; trailers with two zones; malformed trailers; garbage), namely every sequence of up to 3 line kinds, and for a well-formed one- and two-entry changelog every single-line substitution, deletion and insertion, every truncation point and the missing final newline. The returned entries (source, version parts, distributions, options map, verbatim body, maintainer, instant and zone offset) and the error/no-error verdict are compared with a dpkg-changelog reference: input that ends inside an entry or is malformed must give an error, never fewer entries (C17-TABLE). C17-LIST: Parse returns the entries so far only on a clean io.EOF between entries; any other error gives an empty list."
 	rp.NotDecided = "time.Parse and bufio.Reader (standard library); changelog line shapes not represented by the line kinds."
 	rp.Trusted = []string{"go/types, go/ssa", "time.Parse with layout RFC1123Z, bufio.Reader.ReadString", "the changelog reference model in c17.go (deb-changelog(5))"}
